@@ -89,7 +89,7 @@ def run_job(contract_module, cls_name, shape_idx, tier="quick", max_paths=None, 
                     if f_run is not None:
                         ret = I.call(f_run, [sh, a], {})
                     else:
-                        ret = I.call(target, a, {})
+                        ret = I.call(target, a[:_arity(target, len(a))], {})  # extra entries of `a` are ghost/witness values
                     raised = None
                 except PyRaise as pr:
                     raised = pr
@@ -151,6 +151,16 @@ def run_job(contract_module, cls_name, shape_idx, tier="quick", max_paths=None, 
         res["trace"] = traceback.format_exc()[-3000:]
     res["secs"] = time.time() - t0
     return res
+
+
+def _arity(target, n):
+    f = target.func if isinstance(target, BoundMethod) else target
+    if isinstance(f, FuncV) and f.node.args.vararg is None:
+        k = len(f.node.args.posonlyargs) + len(f.node.args.args)
+        if isinstance(target, BoundMethod):
+            k -= 1
+        return min(k, n)
+    return n
 
 
 class LoopCut(Exception):
